@@ -742,6 +742,43 @@ def _other_sites():
             return (lambda: it.handle(a).dimensions[di].link_data_array(it.handle(wk), [-1]), None)
         S["%sDimension.link_data_array/wrong-kind" % kind_.capitalize()] = _link_wrong
 
+        def _index_ndarray(it, n, kind_=kind_):
+            # a well-formed index vector handed over as an ndarray (not a list): accepted or refused - but a refusal
+            # must leave the ticks / labels / the existing link alone
+            a, di = _dim_linked(it, n, kind_) if n % 2 else _dim(it, n, kind_)
+            t = need(it.pick("array", n + 1, lambda x: x.parent is a.parent and x.info["dtype"] not in ("bool",) and
+                             (kind_ == "set" or x.info["dtype"] != "str") and len(x.info["shape"]) >= 1 and
+                             all(x.info["shape"])))
+            rank = len(t.info["shape"])
+            idx = np.array([-1] + [0] * (rank - 1))
+            it.positional_ok = False
+            return (lambda: it.handle(a).dimensions[di].link_data_array(it.handle(t), idx), None)
+        S["%sDimension.link_data_array/index-as-ndarray" % kind_.capitalize()] = _index_ndarray
+
+    @reg("DataArray.append_range_dimension_using_self/index-as-ndarray")
+    def _(it, n):
+        a = need(it.pick("array", n, lambda x: x.info["dtype"] not in ("str", "bool") and len(x.info["shape"]) >= 1
+                         and all(x.info["shape"])))
+        rank = len(a.info["shape"])
+        it.positional_ok = False
+        return (lambda: it.handle(a).append_range_dimension_using_self(np.array([-1] + [0] * (rank - 1))), None)
+
+    for role in ("positions", "extents"):
+        def _foreign(it, n, role=role):
+            # positions / extents given as an array of ANOTHER block: accepted by some versions, refused by others -
+            # a refusal must leave neither the tag nor a derived '<name>-positions' array behind
+            blk = _blk(it, n)
+            b = it.handle(blk)
+            far = need(it.pick("array", n, lambda x: x.parent is not blk and x.info["dtype"] not in ("str", "bool")))
+            nm = "c12-mtf-%s-%d" % (role, n)
+            it.positional_ok = False
+            if role == "positions":
+                bad = lambda: b.create_multi_tag(nm, "t", positions=it.handle(far))  # noqa: E731
+            else:
+                bad = lambda: b.create_multi_tag(nm, "t", positions=[[1.0], [2.0]], extents=it.handle(far))  # noqa: E731
+            return (bad, lambda: b.create_multi_tag(nm, "t", positions=[[1.0], [2.0]]))
+        S["Block.create_multi_tag/%s-of-another-block" % role] = _foreign
+
     for role in ("positions", "extents"):
         def _derived(it, n, role=role):
             # the array the call would create implicitly ('<name>-positions' / '<name>-extents') exists already,
